@@ -6,6 +6,8 @@ CONSTANTS Variant = "ok"
  MCVs = {1, 2}
  PolyMode = "one"
  MaxRedel = 2
+ MaxFault = 0
+ FaultNodes = {1, 2, 3}
  OrderMode = "free"
 INVARIANTS TypeOK CountsDistinct NoFailure ThresholdIsT Agreement KeyedByShareIdx OwnShareMatches GroupKeyIsSum AnyTRecover AnyTSign BelowThresholdSafe
 PROPERTIES RedeliveryNoEffect BarrierComplete
